@@ -21,6 +21,11 @@ DISCARD = {
     "checkout-dot": [["checkout", "."]],
     "checkout-head-dd-f": [["checkout", "HEAD", "--", F]],
     "checkout-head-f": [["checkout", "HEAD", F]],
+    "checkout-head-dd-dot": [["checkout", "HEAD", "--", "."]],
+    "checkout-other-f": [["checkout", "HEAD~1", F]],
+    "checkout-other-dd-f": [["checkout", "HEAD~1", "--", F]],
+    "restore-source-other": [["restore", "--source", "HEAD~1", "--", F]],
+    "rm-f-readd": "rm-readd",
     "checkout-force": [["checkout", "-q", "-f"]],
     "checkout-force-branch": [["checkout", "-q", "-f", "main"]],
     "switch-discard": [["switch", "-q", "--discard-changes", "main"]],
@@ -85,6 +90,11 @@ def run_cell(case):
             s.g("stash", "push", "-q")
             s.human_write(G, s.read(G) + [s.line("human")]); s.g("add", "--", G); s.g("commit", "-q", "-m", "HEAD moves on")
             refused_pop = True
+        elif steps == "rm-readd":
+            # `git rm -f` takes the file away; the person re-creates it with the committed text before going on
+            s.g("rm", "-q", "-f", "--", F)
+            s.human_write(F, f0)
+            s.g("add", "--", F)
         elif steps == "away-checkout-f":
             s.w.git("branch", "away", "HEAD~1", plain=True, tick=False)
             s.g("checkout", "-q", "-f", "away"); s.g("checkout", "-q", "main")
